@@ -66,6 +66,7 @@ fn main() {
                 }
             }
         }
+        "replay" => replay(args.get(2).map(|s| s.as_str()).unwrap_or("")),
         "dump" => props::c17::dump(args.get(2).map(|s| s.as_str()).unwrap_or("quick"), &args[3]),
         "ladder-timing" => {
             ladder_timing();
@@ -117,5 +118,82 @@ pub fn ladder_timing() {
             let c = alloc::read();
             println!("{:<55} n={:<6} len={:<6} elems={:<5} {:>8.1} ms  total_alloc={:>12} peak={:>12}", r.name, n, case.input.len(), res.len(), t.elapsed().as_secs_f64() * 1e3, c.total, c.peak);
         }
+    }
+}
+
+fn spaces_for(prop: &str, tier: &str) -> Option<Vec<Box<dyn engine::Space>>> {
+    let st = |g: Vec<props::stream::StreamGen>| -> Vec<Box<dyn engine::Space>> { g.into_iter().map(|g| g.into_space(|c| props::stream::judge_stream(c).eval)).collect() };
+    Some(match prop {
+        "C01" => props::c01::replay_spaces(tier),
+        "C02" => props::c02::spaces(tier),
+        "C03" => props::c03::spaces(tier),
+        "C04" => st(props::c04::streams(tier)),
+        "C05" => st(props::c05::streams(tier)),
+        "C08" => props::c08::spaces(tier),
+        "C09" => props::c09::spaces(tier),
+        "C10" => props::c10::spaces(tier),
+        "C11" => props::c11::spaces(tier),
+        "C12" => props::c12::spaces(tier),
+        "C13" => props::c13::spaces(tier),
+        "C14" => props::c14::spaces(tier),
+        "C15" => props::c15::replay_spaces(tier),
+        "C16" => props::c16::spaces(tier),
+        _ => return None,
+    })
+}
+
+/// `nfmc replay <file>`: re-run one recorded violation; exit 1 if it reproduces, 0 if it does not, 2 on error
+fn replay(file: &str) -> i32 {
+    let text = match std::fs::read_to_string(file) {
+        Ok(t) => t,
+        Err(e) => {
+            eprintln!("cannot read {}: {}", file, e);
+            return 2;
+        }
+    };
+    let v: serde_json::Value = match serde_json::from_str(&text) {
+        Ok(v) => v,
+        Err(e) => {
+            eprintln!("cannot parse {}: {}", file, e);
+            return 2;
+        }
+    };
+    let prop = v["property"].as_str().unwrap_or("");
+    let tier = v["tier"].as_str().unwrap_or("quick");
+    if prop == "C06" || prop == "C07" {
+        return props::c06::replay(&v);
+    }
+    if prop == "C17" {
+        return props::c17::run(tier);
+    }
+    let spaces = match spaces_for(prop, tier) {
+        Some(s) => s,
+        None => {
+            eprintln!("unknown property {}", prop);
+            return 2;
+        }
+    };
+    let name = v["space"].as_str().unwrap_or("");
+    let idx = v["index"].as_u64().unwrap_or(0);
+    let want = v["signature"].as_str().unwrap_or("");
+    let sp = match spaces.iter().find(|s| s.name() == name) {
+        Some(s) => s,
+        None => {
+            eprintln!("space {:?} not found for {} tier {}", name, prop, tier);
+            return 2;
+        }
+    };
+    println!("{} {}[{}]\ncase: {}", prop, name, idx, sp.describe(idx));
+    let e = sp.eval(idx);
+    let mut hit = false;
+    for i in &e.issues {
+        println!("  {} :: {}", i.sig, i.detail);
+        hit |= i.sig == want;
+    }
+    println!("{}", if hit { "REPRODUCED" } else { "not reproduced" });
+    if hit {
+        1
+    } else {
+        0
     }
 }
